@@ -65,7 +65,7 @@ def run(P, rep, tier):
     r1 = rep.rule('C18-R1', 'module/class-level containers and mutable defaults are never the receiver of a mutation', reference=20)
     r2 = rep.rule('C18-R2', 'separately created trees / sections share no mutable container', reference=12)
     r3 = rep.rule('C18-R3', 'a reused DOM reader / writer object carries no state from one call into the next', reference=2)
-    r4 = rep.rule('C18-R4', 'observers (to_bytes, ==, repr, iteration, subsections) do not mutate the tree', reference=8)
+    r4 = rep.rule('C18-R4', 'observers (to_bytes, ==, repr, iteration, subsections, reads of properties and typed option attributes) do not mutate the tree', reference=8)
     r5 = rep.rule('C18-R5', 'no memoising decorator on a function returning a mutable value', reference=1)
     r6 = rep.rule('C18-R6', 'records yielded by the streaming reader contain only containers of their own (none that is '
                   'module/class-level, kept by the reader, or shared with another record)', reference=9)
@@ -261,6 +261,29 @@ def run(P, rep, tier):
                 I.frames = []
                 I.call_function(it, [o], {}, None, self_cls=o.cls)
         out['__repr__/__iter__'] = (m4, len(I.events))
+        # reading the public attributes of every section: properties and descriptor-backed (typed option) attributes
+        m5 = len(I.events)
+        from sa import models as M_
+        from sa.interp import AbsRaise as AbsRaise_
+        nreads = 0
+        for o in [x for x, w in containers(tree).values() if isinstance(x, AObj)]:
+            names = []
+            for c_ in o.cls.repo_mro():
+                for nm_ in list(c_.props) + list(c_.attrs):
+                    if nm_ not in names and not nm_.startswith('__'):
+                        names.append(nm_)
+            for nm_ in names:
+                if nm_ in o.attrs:
+                    continue
+                I.frames = []
+                try:
+                    M_.get_attr(I, o, nm_, o.cls.node)
+                    nreads += 1
+                except AbsRaise_:
+                    pass
+        if not nreads:
+            raise AnalysisError('observer scenario: no property / descriptor attribute of the tree could be read')
+        out['attribute reads'] = (m5, len(I.events))
         return tree, out
     npaths = 0
     obs_bad = {}
